@@ -85,7 +85,10 @@ class Run:
             if node["r"].get("s") == "self" and name in getattr(self, "new_methods", ()):
                 fi = visitor_fn(self.facts, self.which, name)
                 names = [inp["pat"]["n"] if "pat" in inp and inp["pat"]["k"] == "pid" else None for inp in fi.node["sig"]["inputs"] if "self" not in inp]
-                a = [self.it.eval(x) for x in node["a"]]
+                # the arguments are evaluated by the interpreter that is executing the call (a sub-interpreter of an inlined helper or a
+                # closure scope), not by the run's top-level one
+                cur = absint.CURRENT if getattr(absint, "CURRENT", None) is not None else self.it
+                a = [cur.eval(x) for x in node["a"]]
                 env = {n: v for n, v in zip(names, a) if n}
                 env["self"] = recv
                 sub = Interp(env=env, src_env=self.it.src_env, cfg=self.it.cfg, on_call=self.it.on_call)
